@@ -95,6 +95,25 @@ var ruleAddendaRound6 = map[string]string{
 	"C20": "group upload-whose-body-arrives-after-another-request (body reader blocking on a scheduler-visible gate, 16 scenarios, preemption bound 2); List over a store of 300 / 1000 fillers while token pairs are replaced in order; the registered SP is also stored under a second name",
 }
 
+// ruleAddendaRound7: extensions of the seventh round.
+var ruleAddendaRound7 = map[string]string{
+	"C01": "more than one ds:Signature child on the Response (a second, attacker-made one; empty shells on Response and Assertion)",
+	"C02": "group clock-with-a-sub-second-part (clock 1 / 250 / 999 / 500.499 ms past the second)",
+	"C05": "group gate-freshness-x-optional-request-children (Conditions, Subject, Scoping, Extensions x 5 request ages); the IdP's own logout and metadata URLs as Destination",
+	"C06": "group retry-after-a-failed-signature (external signer failing on its k-th call, three attempts); request extras with Conditions / Scoping",
+	"C07": "a valueless and an empty-valued attribute in every session; logins 49 h / 30 d / 400 d after the metadata exchange",
+	"C09": "zlib / gzip / trailing-junk / stored-block containers around the 10 MB+ payloads; foreign-namespace Signature siblings with a KeyInfo; every consuming call under a 20 s watchdog",
+	"C11": "a mismatching certificate behind another X509Data / KeyInfo / X509SKI; group undecodable-wrapped-key (3 transports x 5 ciphers x 7 failures x 2 entry elements)",
+	"C12": "group logout-response-request-ids (9 ID shapes); configuration axis idp-nameid-formats",
+	"C13": "group sp-with-intermediate-certificates (3 chains x 7 messages x 2 keys)",
+	"C14": "namespace-qualified Location / ResponseLocation attributes; endpoints without or with an empty Location next to a hostile ResponseLocation",
+	"C15": "the SAML 1.0 SOAP binding in metadata-endpoint-location-forms",
+	"C17": "delivery with a RelayState field that is present and empty",
+	"C18": "issue instants written with a zone offset; genuine signatures whose KeyInfo carries no certificate (valid unless only a fingerprint is configured)",
+	"C19": "logins whose password differs from the stored one by surrounding blanks or letter case",
+	"C20": "three handlers that end in the login form",
+}
+
 // Register adds a check.
 func Register(c *Check) {
 	if a := ruleAddenda[c.ID]; a != "" {
@@ -105,6 +124,9 @@ func Register(c *Check) {
 	}
 	if a := ruleAddendaRound6[c.ID]; a != "" {
 		c.Rule += " Sixth round: " + a
+	}
+	if a := ruleAddendaRound7[c.ID]; a != "" {
+		c.Rule += " Seventh round: " + a
 	}
 	registry[c.ID] = c
 }
